@@ -107,7 +107,8 @@ Build(ls, i, rt, lt, ids) ==
          ELSE LET a == TabAdd(lt, ls[i].L) IN Build(ls, i + 1, rt, a.tab, Append(ids, a.id))
 
 Cv(v) == IF SmallNat(v) THEN ToNat(v) ELSE v
-JEnt(e) == [k |-> e.k, a |-> Cv(e.a), b |-> Cv(e.b), d |-> e.d]
+JEnt(e) == IF HasRef(e) THEN [k |-> e.k, a |-> Cv(e.a), b |-> Cv(e.b), d |-> e.d, r |-> e.r]
+           ELSE [k |-> e.k, a |-> Cv(e.a), b |-> Cv(e.b), d |-> e.d]
 JRes(r) == IF r.t = "some" THEN [t |-> "some", begin |-> Cv(r.begin), end |-> Cv(r.end), d |-> r.d] ELSE r
 JItems(s) == [i \in DOMAIN s |-> JRes(s[i])]
 
@@ -141,40 +142,40 @@ Inv ==
         rej == \E i \in DOMAIN ls : MustReject(XL(ls[i].L, 32), enc, lp)
         whys == {Why(ls[i].L, enc, lp) : i \in DOMAIN ls} \ {"none"}
         MeanOf(fmt) == [i \in DOMAIN ls |-> Meaning(XL(ls[i].L, fmt), encOf(fmt), lp, ls[i].fam)]
+        anyRef == \E i \in DOMAIN ls : \E j \in DOMAIN ls[i].L : HasRef(ls[i].L[j])
         PredOf(fmt) ==
             LET e == encOf(fmt)
-                mean == MeanOf(fmt)
                 w == WriteUnit([i \in DOMAIN bd.rt |-> XL(bd.rt[i], fmt)], [i \in DOMAIN bd.lt |-> XL(bd.lt[i], fmt)], e, lp) IN
-            IF ~w.ok THEN [fmt |-> fmt, ok |-> FALSE, err |-> w.err]
-            ELSE [fmt |-> fmt, ok |-> TRUE, rsec |-> w.rsec, lsec |-> w.lsec,
-                  offs |-> [i \in DOMAIN c.ls |-> IF c.ls[i].fam = "rng" THEN w.roffs[bd.ids[i]] ELSE w.loffs[bd.ids[i]]],
-                  back |-> [i \in DOMAIN c.ls |->
-                              LET isr == c.ls[i].fam = "rng"
+            IF ~w.ok THEN [fmt |-> fmt, ok |-> FALSE, err |-> w.err, mean |-> MeanOf(fmt)]
+            ELSE [fmt |-> fmt, ok |-> TRUE, rsec |-> w.rsec, lsec |-> w.lsec, mean |-> MeanOf(fmt),
+                  offs |-> [i \in DOMAIN ls |-> IF ls[i].fam = "rng" THEN w.roffs[bd.ids[i]] ELSE w.loffs[bd.ids[i]]],
+                  back |-> [i \in DOMAIN ls |->
+                              LET isr == ls[i].fam = "rng"
                                   rb == ReadBack(IF isr THEN w.rsec ELSE w.lsec,
-                                                 IF isr THEN w.roffs[bd.ids[i]] ELSE w.loffs[bd.ids[i]], e, lp, c.ls[i].fam) IN
+                                                 IF isr THEN w.roffs[bd.ids[i]] ELSE w.loffs[bd.ids[i]], e, lp, ls[i].fam) IN
                               IF rb.open THEN rb.items ELSE <<[t |-> "err", err |-> "UnexpectedEof"]>>]]
         p32 == PredOf(32)
-        p64 == IF c.vc <= 4 THEN [p32 EXCEPT !.fmt = 64] ELSE PredOf(64)    \* the pair format does not depend on the offset size
-        faithful(p) == p.ok /\ \A i \in DOMAIN c.ls : p.back[i] = mean[i]
+        \* the pair format does not depend on the offset size, unless an expression holds a DIE offset
+        p64 == IF c.vc <= 4 /\ ~anyRef THEN [p32 EXCEPT !.fmt = 64] ELSE PredOf(64)
+        faithful(p) == p.ok /\ \A i \in DOMAIN ls : p.back[i] = p.mean[i]
         predOk(p) == IF rej THEN ~p.ok ELSE faithful(p)
+        JPred(p) == [fmt |-> p.fmt, ok |-> p.ok, err |-> IF p.ok THEN "" ELSE p.err,
+                     rlen |-> IF p.ok THEN Len(p.rsec) ELSE 0, llen |-> IF p.ok THEN Len(p.lsec) ELSE 0,
+                     rsec |-> IF p.ok THEN p.rsec ELSE <<>>, lsec |-> IF p.ok THEN p.lsec ELSE <<>>,
+                     offs |-> IF p.ok THEN p.offs ELSE <<>>,
+                     dieoffs |-> ModelOffs(encOf(p.fmt), lp, nl),
+                     meaning |-> [i \in DOMAIN ls |-> JItems(p.mean[i])]]
     IN
     \* design-level theorem: on lists the property regards as representable, the
     \* emission as coded is accepted and the reader model reads back the Meaning
     /\ (~rej => faithful(p32) /\ faithful(p64))
     \* equal lists share one id; distinct lists get distinct ids
-    /\ \A i, j \in DOMAIN c.ls : (c.ls[i] = c.ls[j]) = (c.ls[i].fam = c.ls[j].fam /\ bd.ids[i] = bd.ids[j])
+    /\ \A i, j \in DOMAIN ls : (ls[i] = ls[j]) = (ls[i].fam = ls[j].fam /\ bd.ids[i] = bd.ids[j])
     /\ PrintT(<<"CASE", ToJson([sys |-> "listw", vc |-> c.vc, vers |-> IF c.vc = 4 THEN {2, 3, 4} ELSE {5}, asz |-> c.asz,
                                 lp |-> IF lp.some THEN <<Cv(lp.v)>> ELSE <<>>,
-                                lists |-> [i \in DOMAIN c.ls |-> [fam |-> c.ls[i].fam, L |-> [j \in DOMAIN c.ls[i].L |-> JEnt(c.ls[i].L[j])]]],
-                                ids |-> bd.ids, reject |-> rej, why |-> whys, named |-> (\E i \in DOMAIN c.ls : NamedReject(c.ls[i].L, 1, HaveBase(lp), enc)),
-                                meaning |-> [i \in DOMAIN c.ls |-> JItems(mean[i])],
-                                pred |-> <<[fmt |-> 32, ok |-> p32.ok, err |-> IF p32.ok THEN "" ELSE p32.err,
-                                            rlen |-> IF p32.ok THEN Len(p32.rsec) ELSE 0, llen |-> IF p32.ok THEN Len(p32.lsec) ELSE 0,
-                                            rsec |-> IF p32.ok THEN p32.rsec ELSE <<>>, lsec |-> IF p32.ok THEN p32.lsec ELSE <<>>,
-                                            offs |-> IF p32.ok THEN p32.offs ELSE <<>>],
-                                           [fmt |-> 64, ok |-> p64.ok, err |-> IF p64.ok THEN "" ELSE p64.err,
-                                            rlen |-> IF p64.ok THEN Len(p64.rsec) ELSE 0, llen |-> IF p64.ok THEN Len(p64.lsec) ELSE 0,
-                                            rsec |-> IF p64.ok THEN p64.rsec ELSE <<>>, lsec |-> IF p64.ok THEN p64.lsec ELSE <<>>,
-                                            offs |-> IF p64.ok THEN p64.offs ELSE <<>>]>>,
+                                lists |-> [i \in DOMAIN ls |-> [fam |-> ls[i].fam, L |-> [j \in DOMAIN ls[i].L |-> JEnt(ls[i].L[j])]]],
+                                ids |-> bd.ids, reject |-> rej, why |-> whys, refs |-> anyRef,
+                                named |-> (\E i \in DOMAIN ls : NamedReject(ls[i].L, 1, HaveBase(lp), enc)),
+                                pred |-> <<JPred(p32), JPred(p64)>>,
                                 predok |-> predOk(p32) /\ predOk(p64)])>>)
 =============================================================================
